@@ -29,7 +29,7 @@ RULE = ('configurations of mux/select/enum_mux/sparse_mux/prioritized_mux/MultiS
         'and non-trivial when it raises or at least one output takes two different values')
 IMPORTS = ('From Coq Require Import ZArith List String.\n'
            'From PyRTL Require Import Front.SliceC14 Front.Mux Front.Struct Front.C14Harness.\n'
-           'Import ListNotations. Open Scope Z_scope.')
+           'Import ListNotations. Open Scope Z_scope. Open Scope string_scope.')
 COQ_TARGETS = ['theories/Front/C14Harness.vo']
 TRUSTED = ['py/checks/C14.py oracles: plain-Python bit-level reading of the docstrings of the helpers',
            'Front/SliceC14.v pyslice = Python slice semantics for step 1 (compared with list(range(n))[s:e] '
@@ -120,7 +120,8 @@ def bl(b):
     return 'true' if b else 'false'
 
 
-ERR = 'ERR'     # the documentation says this use is an error
+ERR = 'ERR'     # the documentation says this use is an error: the helper must raise
+ERRU = 'ERRU'   # the code is expected to raise, the documentation is silent (checked against the model only)
 ANY = None      # value left open by the documentation
 
 
@@ -159,9 +160,9 @@ def o_mux(c, ws, env):
     k, i = s_val(ws, env, c['idx'])
     n = len(c['ins'])
     if n > (1 << k):
-        return ERR
+        return ERRU
     if n < (1 << k) and c['dflt'] is None:
-        return ERR
+        return ERR                              # "you need to specify a value for those other" indices
     if i < n:
         return [s_val(ws, env, c['ins'][i])[1]]
     return [s_val(ws, env, c['dflt'])[1]]       # a default only beyond the list
@@ -178,7 +179,7 @@ def q_pmux(c):
 
 def o_pmux(c, ws, env):
     if len(c['sels']) != len(c['vals']) or not c['vals']:
-        return ERR
+        return ERRU
     for s, v in zip(c['sels'], c['vals']):
         if s_val(ws, env, s)[1]:
             return [s_val(ws, env, v)[1]]       # first wire whose select bit is 1
@@ -203,9 +204,9 @@ def o_sparse(c, ws, env):
     k, i = s_val(ws, env, c['sel'])
     d = dict(c['vals'])
     if any(key < 0 or key >= (1 << k) for key in d):
-        return ERR
+        return ERRU
     if not d and c['dflt'] is None:
-        return ERR
+        return ERRU
     if i in d:
         return [s_val(ws, env, d[i])[1]]
     if c['dflt'] is not None:
@@ -238,11 +239,11 @@ def o_enum(c, ws, env):
         return ERR
     d = ow[0] if ow else c['dflt']
     if not tab:
-        return ERR
+        return ERRU
     if c['strict'] and d is None and any(m not in tab for m in c['members']):
         return ERR
     if any(key >= (1 << k) for key in tab):
-        return ERR
+        return ERRU
     if i in tab:
         return [s_val(ws, env, tab[i])[1]]
     if d is not None:
@@ -273,7 +274,7 @@ def o_multi(c, ws, env):
     k, i = s_val(ws, env, c['sel'])
     keys = [kk for kk, _ in c['opts'] if kk is not None]
     if len(set(keys)) != len(keys) or any(kk >= (1 << k) for kk in keys):
-        return ERR
+        return ERRU
     row = None
     for kk, data in c['opts']:
         if kk == i:
@@ -345,7 +346,7 @@ def o_bfu(c, ws, env):
     n, x = s_val(ws, env, c['w'])
     idx = py_indices(n, c['s'], c['e'])
     if not idx:
-        return ERR
+        return ERRU
     m, v = s_val(ws, env, c['nv'])
     if c['nv'][0] == 'I':
         m = minw(v) if v else 0
@@ -377,8 +378,10 @@ def o_bfus(c, ws, env):
     taken = set()
     for (s, e, nv) in c['ups']:
         idx = py_indices(n, s, e)
-        if not idx or taken & set(idx):
-            return ERR
+        if not idx:
+            return ERRU
+        if taken & set(idx):
+            return ERR                           # only non-overlapping fields may be updated together
         taken |= set(idx)
         m, v = s_val(ws, env, nv)
         if m > len(idx):
@@ -441,8 +444,10 @@ def q_chop(c):
 
 def o_chop(c, ws, env):
     n, x = s_val(ws, env, c['w'])
-    if sum(c['widths']) != n or any(wd <= 0 for wd in c['widths']):
+    if sum(c['widths']) != n:
         return ERR
+    if any(wd <= 0 for wd in c['widths']):
+        return ERRU
     out = []
     pos = n
     for wd in c['widths']:                       # leftmost segment = most significant bits
@@ -563,7 +568,7 @@ def q_sconcat(c):
 def o_sconcat(c, ws, env):
     kids = sch_kids(c['sch'])
     if len(kids) != len(c['vals']):
-        return ERR
+        return ERRU
     x = 0
     for s, k in zip(c['vals'], kids):            # first component most significant
         x = (x << sch_bw(k)) | (s_val(ws, env, s)[1] & ((1 << sch_bw(k)) - 1))
@@ -699,8 +704,11 @@ def run_group(args):
         bad = None
         varying = False
         first = orc(c, ws, envs[0])
-        if first == ERR:
-            r['oracle'] = 'ERR'
+        if first == ERR or first == ERRU:
+            r['oracle'] = first
+            if first == ERR and r['err'] is None:
+                bad = {'kind': 'accepts', 'pool': envs[0], 'got': r['tab'][0],
+                       'expected': 'an error (documented misuse)'}
         else:
             r['oracle'] = 'OK'
             if r['err'] is not None:
@@ -757,7 +765,7 @@ def gen_mux(rng, tier):
         full = 1 << k
         counts = list(range(1, full + 2))
         if tier == 'quick' and k == 4:
-            counts = [1, 5, 9, 11, 15, 16, 17]
+            counts = [1, 9, 15, 16, 17]
         for m in counts:
             for dk in ('none', 'wire', 'int'):
                 for rep in range(reps if k < 4 or tier != 'quick' else 1):
@@ -791,11 +799,11 @@ def gen_pmux(rng, tier):
 
 def gen_sparse(rng, tier):
     out = []
-    reps = 14 if tier == 'quick' else 120
+    reps = 12 if tier == 'quick' else 120
     for k in (1, 2, 3, 4):
         ws = [k] + DATA_POOL
         full = 1 << k
-        for rep in range(reps):
+        for rep in range(reps if k < 4 or tier != 'quick' else 6):
             nkeys = rng.choice([1, 1, 2, 3, full // 2, full - 1, full, rng.randint(1, full)])
             nkeys = max(1, min(full, nkeys))
             keys = rng.sample(range(full), nkeys)
@@ -803,6 +811,9 @@ def gen_sparse(rng, tier):
                 keys.sort()
             few = rng.random() < 0.5          # few distinct values -> equivalent halves collapse
             palette = [rand_src(rng, 1, DATA_POOL) for _ in range(2 if few else 6)]
+            if rng.random() < 0.3:            # Consts of one bitwidth: equal only when the values agree
+                cw = rng.randint(1, 3)
+                palette = [('C', cw, rng.randrange(0, 1 << cw)) for _ in range(3)]
             vals = [(kk, rng.choice(palette)) for kk in keys]
             dk = rng.choice(['none', 'none', 'wire', 'int', 'same'])
             d = None
@@ -876,7 +887,7 @@ def gen_demux(rng, tier):
 
 def gen_barrel(rng, tier):
     out = []
-    lim = 11 if tier == 'quick' else 13
+    lim = 10 if tier == 'quick' else 13
     for w in range(1, 9):
         for sdw in range(1, 6):
             if w + sdw + 2 <= lim:
@@ -897,13 +908,13 @@ def gen_bfu(rng, tier):
         bs = bounds(n)
         pairs = [(s, e) for s in bs for e in bs]
         if tier == 'quick' and n == 5:
-            pairs = rng.sample(pairs, 90)
+            pairs = rng.sample(pairs, 40)
         for s, e in pairs:
             m = len(py_indices(n, s, e))
             nv = ('S', 1, 0, m) if 0 < m < n else ('W', 1)
             out.append({'fam': 'bitfield_update', 'ws': ws, 'w': ('W', 0), 's': s, 'e': e, 'nv': nv, 'tr': False})
         # width mismatches: narrower (zero-extended), wider with / without truncating, ints
-        for rep in range(12 if tier == 'quick' else 60):
+        for rep in range(8 if tier == 'quick' else 60):
             s, e = rng.choice(bs), rng.choice(bs)
             m = len(py_indices(n, s, e))
             kind = rng.choice(['narrow', 'wide', 'int', 'bigint'])
@@ -922,7 +933,7 @@ def gen_bfu(rng, tier):
 
 def gen_bfus(rng, tier):
     out = []
-    reps = 60 if tier == 'quick' else 500
+    reps = 40 if tier == 'quick' else 500
     for n in (3, 4, 5, 6):
         if tier == 'quick' and n == 6:
             continue
@@ -962,7 +973,7 @@ def gen_mbp(rng, tier):
     full_len = 3 if tier == 'quick' else 4
     for L in range(1, full_len + 1):
         pats += [''.join(p) for p in itertools.product(ALPHA, repeat=L)]
-    for _ in range(700 if tier == 'quick' else 7000):
+    for _ in range(500 if tier == 'quick' else 7000):
         L = rng.randint(full_len + 1, 8)
         pats.append(''.join(rng.choice(ALPHA) for _ in range(L)))
     for p in pats:
@@ -1041,7 +1052,7 @@ def sch_depth(s):
 
 def gen_struct(rng, tier):
     out = []
-    reps = 220 if tier == 'quick' else 2500
+    reps = 170 if tier == 'quick' else 2500
     budget = 8 if tier == 'quick' else 10
     seen = set()
     for rep in range(reps):
@@ -1114,6 +1125,20 @@ def check_slices(ctx):
         ctx.count('families', 'pyslice', len(bs) * len(bs))
 
 
+def decode_table(widths, s):
+    """rows of ceil(sum(widths)/4) hex digits, low nibble first; first output in the low bits"""
+    h = (sum(widths) + 3) // 4
+    tab = []
+    for k in range(0, len(s), h):
+        v = int(s[k:k + h][::-1], 16)
+        row = []
+        for w in widths:
+            row.append(v & ((1 << w) - 1))
+            v >>= w
+        tab.append(row)
+    return tab
+
+
 def run_configs(ctx, cfgs):
     # group by pool, chunk so that one worker gets a bounded amount of simulation work
     groups = {}
@@ -1178,9 +1203,11 @@ def run_configs(ctx, cfgs):
         elif r['err'] is not None:
             ctx.model_mismatch('%s: implementation raises %s (%s), model returns' % (fam, r['err'], r['msg']), rep)
         else:
-            widths, tab = list(m[0]), [list(row) for row in m[1]]
+            widths, tab = list(m[0]), decode_table(list(m[0]), m[1])
             if widths != r['widths']:
                 ctx.model_mismatch('%s: output bitwidths differ (impl %s, model %s)' % (fam, r['widths'], widths), rep)
+            elif len(tab) != len(r['tab']):
+                ctx.model_mismatch('%s: table sizes differ (impl %d, model %d)' % (fam, len(r['tab']), len(tab)), rep)
             elif tab != r['tab']:
                 x = next(k for k in range(len(tab)) if tab[k] != r['tab'][k])
                 ctx.model_mismatch('%s: values differ at pool value %d (impl %s, model %s)' % (
